@@ -140,6 +140,19 @@ def timers(ctx):
             ob2.refute("postponer-out", "req_o is not raised under req_i & (count == 0): %s" % [str(d) for d in sets], pc[0].loc)
 
 
+def _expand_all(v, t_, depth=6):
+    """term with every single-definition comb signal (also those of sub-blocks) replaced by its definition"""
+    if depth == 0:
+        return t_
+    if isinstance(t_, Op):
+        return Op(t_.op, tuple(_expand_all(v, a_, depth) for a_ in t_.args))
+    if isinstance(t_, (Obj, Sym)):
+        d_ = v.single_comb_def(t_)
+        if d_ is not None:
+            return _expand_all(v, d_, depth - 1)
+    return t_
+
+
 def priority(ctx):
     ob = ctx.ob("C04.3", "priority: in the bank machine's idle/column state the refresh request is tested first and alone (guard = {refresh_req}), "
                          "everything else there is under ~refresh_req; in the multiplexer's read/write states the go_to_refresh transition is "
@@ -196,6 +209,18 @@ def priority(ctx):
             if not okk:
                 ob.refute("mux-refresh-priority:%s:%d" % (s, nph), "in state %s the transition to the refresh state is not the last (winning) "
                           "NextState guarded by the grants alone: %s" % (s, [str(l) for l in nx]), (last or M.fsm.acts[s][0]).loc)
+        # wait-for cycle: a bank machine grants only from its idle state, so a command it already presents must still be acceptable while the refresh
+        # request is pending - the choosers' accept conditions may not depend on the refresher's request
+        rq = key(Sym("refresher.cmd.valid"))
+        for ch in (M.req, M.cmdch):
+            rk = key(ch.attrs["cmd"]) + ".ready"
+            for l in v.drivers(rk):
+                dep = {x.lstrip("~") for x in v.guard_keys(l)} | {x for x in support(_expand_all(v, l.value))}
+                ob.instance("nphases=%d: %s accept condition (state %s)" % (nph, rk, l.state), {"depends on refresh request": rq in dep})
+                if rq in dep:
+                    ob.refute("accept-blocked-by-refresh:%d:%s" % (nph, l.state), "in state %s the chooser accepts commands only under a condition that depends on the refresher's "
+                              "request (%s): a bank machine that already presents an ACT when the request rises can neither get it accepted nor return to the state "
+                              "in which it grants - the refresh is never served" % (l.state, key(l.value)[:160]), l.loc)
         gates = {M.ready(g) for g in M.gates}
         for s in M.fsm.states:
             if s in (M.read_state, M.write_state):
